@@ -20,8 +20,8 @@ import catalog  # noqa: E402
 import extract  # noqa: E402
 
 BOUNDS = {
-    "quick": {"STK_CAP": 4, "STK_SEQ": 5, "BUF_CAP": 3, "BUF_SEQ": 5, "VLEN": 2, "EXTRA": 1, "TOPO_N": 9, "TOPO_D": 3, "RUN_L": 2, "RUN_G": 2},
-    "thorough": {"STK_CAP": 5, "STK_SEQ": 7, "BUF_CAP": 4, "BUF_SEQ": 7, "VLEN": 3, "EXTRA": 2, "TOPO_N": 16, "TOPO_D": 3, "RUN_L": 4, "RUN_G": 2},
+    "quick": {"STK_CAP": 4, "STK_SEQ": 5, "BUF_CAP": 3, "BUF_SEQ": 5, "VLEN": 2, "EXTRA": 1, "TOPO_N": 4, "TOPO_D": 3, "RUN_L": 1, "RUN_G": 2},
+    "thorough": {"STK_CAP": 5, "STK_SEQ": 7, "BUF_CAP": 4, "BUF_SEQ": 7, "VLEN": 3, "EXTRA": 2, "TOPO_N": 6, "TOPO_D": 3, "RUN_L": 3, "RUN_G": 2},
 }
 
 LOADS = {
@@ -148,7 +148,10 @@ def gen_instr(out_src, tier, harnesses, table, last):
         pre_rs_np = "crate::instr::%s" % (pre or "pre_none")
         pre_rs_sem = "crate::instr::%s" % (sem_pre or pre or "pre_none")
         modes = [("c01", "NoPanic", "C01")]
-        if prop != "C13" and name not in ("NAME.RAND", "NAME.RANDBOUNDNAME", "BOOLEAN.RAND"):
+        # determinism harness: not for RAND instructions, and not where CBMC's model of the operation is
+        # itself a nondeterministic relation (transcendental functions, fmod): two runs may legally differ
+        if prop != "C13" and name not in ("NAME.RAND", "NAME.RANDBOUNDNAME", "BOOLEAN.RAND", "FLOAT.SIN", "FLOAT.COS",
+                                          "FLOAT.TAN", "FLOAT.EXP", "FLOAT.%", "FLOATVECTOR.SINE"):
             modes.append(("c14", "Twice", "C14"))
         if ("ni" in needs or "nf" in needs) and not catalog.OPTS.get(name, {}).get("no_cost"):
             modes.append(("c15", "Cost", "C15"))
@@ -166,7 +169,7 @@ def gen_instr(out_src, tier, harnesses, table, last):
             if mode_rs == "Cost":
                 pre_rs = "crate::instr::pre_none"
             if mode_rs == "Twice":
-                pre_rs = pre_rs_np
+                pre_rs = pre_rs_sem
             spec_rs = "Some(crate::spec::%s as SpecFn)" % sfn if mode_rs in ("Sem", "Frame") else "None"
             # one run = (shape, optional concrete index); chunk the runs so that a harness stays small
             runs = []
@@ -176,12 +179,19 @@ def gen_instr(out_src, tier, harnesses, table, last):
                         runs.append((sh, ix))
                 elif opts.get("idx_enum") and sh["ni"] >= 1:
                     depth = max(sh[k] for k in needs if k != "ni")
-                    idxs = sorted({-2147483648, -1, 0, 1, depth - 1, depth, 2147483647}) if depth > 0 else [0, 2147483647]
+                    big = 100000 if mode_rs == "Cost" else 2147483647
+                    idxs = sorted({-big - (0 if mode_rs == "Cost" else 1), -1, 0, 1, depth - 1, depth, big}) if depth > 0 else [0, big]
                     for ix in idxs:
                         runs.append((sh, ix))
                 else:
                     runs.append((sh, None))
-            chunk = 8
+            nvec = sum(needs.get(k, 0) for k in ("nbv", "niv", "nfv"))
+            chunk = 8 if nvec == 0 else (4 if nvec == 1 else 3)
+            if name.startswith("OUTPUT.WRITE") or name.startswith("INPUT."):
+                chunk = 3
+            heavy = name in ("CODE.SHOVE", "EXEC.SHOVE", "CODE.YANK", "EXEC.YANK")
+            if heavy:
+                chunk = 2  # Vec<Item>::insert/remove: memmove of 100-byte elements
             nchunks = (len(runs) + chunk - 1) // chunk
             for ci in range(nchunks):
                 part = runs[ci * chunk:(ci + 1) * chunk]
@@ -210,6 +220,7 @@ def gen_instr(out_src, tier, harnesses, table, last):
                         "function": e["func"],
                         "module": e["module"],
                         "shapes": len(part),
+                        "cost": round(len(part) * (6 if nvec == 0 else (14 if nvec == 1 else 28)) * {"NoPanic": 0.8, "Sem": 1.0, "Frame": 1.6, "Twice": 2.0, "Cost": 1.0}[mode_rs] * (6 if heavy else 1) + 8, 1),
                         "pre": pre if mode_rs == "NoPanic" else (sem_pre or pre),
                         "index_operand": "concrete set" if opts.get("idx_enum") else "any i32",
                         "sample": {"instruction": name, "shape": {k: v for k, v in part[len(part) // 2][0].items()}, "index": part[len(part) // 2][1]},
@@ -298,6 +309,7 @@ def gen_c20(out_src, tier, harnesses):
                 name = "c20_nb_n%d_d%d_i%d" % (n, d, i)
                 out.append("#[kani::proof]\n#[kani::unwind(%d)]\n#[kani::stub(f32::powf, crate::gen::libm_table::powf_table)]\npub fn %s() {\n    check_neighbors(%d, %d, %d);\n    kani::cover!(true, \"reached end\");\n}\n" % (n + 3, name, n, d, i))
                 harnesses.append({"harness": "gen::c20_gen::%s" % name, "property": "C20", "kind": "neighbourhood", "module": "d%d" % d,
+                                  "cost": {1: 5, 2: 8, 3: 25, 4: 80}.get(n, 400),
                                   "sample": {"ntotal": n, "ndim": d, "centre": i, "radius": "any f32"}})
     open(os.path.join(out_src, "gen", "c20_gen.rs"), "w").write("\n".join(out))
 
@@ -317,7 +329,10 @@ def scan_handwritten(out_src, harnesses):
             if n in seen:
                 continue
             seen.add(n)
-            harnesses.append({"harness": "%s::%s" % (mod, n), "property": pid, "kind": "unit", "sample": {"harness": n}})
+            h = {"harness": "%s::%s" % (mod, n), "property": pid, "kind": "unit", "sample": {"harness": n}}
+            if n.startswith("c02_run_accounting") or "code_rand_bound" in n or "code_rand_size_bounded" in n:
+                h["replay"] = "solver-only"
+            harnesses.append(h)
 
 
 def main():
